@@ -41,6 +41,9 @@ thread_local! {
     pub static PANIC_MSGS: std::cell::RefCell<Vec<String>> = const { std::cell::RefCell::new(Vec::new()) };
 }
 
+/// panics of threads named "par-<n>" (the PAR engine's runtime workers), keyed by thread name
+pub static PAR_PANICS: std::sync::Mutex<Vec<(String, String)>> = std::sync::Mutex::new(Vec::new());
+
 fn install_panic_hook() {
     let verbose = std::env::var("VERIF_VERBOSE").is_ok();
     let default = std::panic::take_hook();
@@ -49,6 +52,13 @@ fn install_panic_hook() {
         let msg = format!("{info}");
         LAST_PANIC.with(|l| *l.borrow_mut() = msg.chars().take(300).collect());
         PANIC_MSGS.with(|l| l.borrow_mut().push(msg.chars().take(300).collect()));
+        if let Some(n) = std::thread::current().name() {
+            if n.starts_with("par-") {
+                if let Ok(mut g) = PAR_PANICS.lock() {
+                    g.push((n.to_string(), msg.chars().take(300).collect()));
+                }
+            }
+        }
         if verbose {
             default(info);
         }
@@ -166,6 +176,7 @@ fn main() {
                 _ if engine == "e2e-height" => e2e::replay_height(case),
                 _ if engine == "e2e-config" => props::c19::replay(case),
                 _ if engine == "e2e-slow-pay" => e2e::replay_slow_pay(case),
+                _ if engine == "par" => props::par::replay(leaked, case),
                 _ if engine == "fuzz-request" => {
                     let bytes = hex::decode(case["input"].as_str().unwrap_or("")).unwrap_or_default();
                     let before = PANICS.with(|p| p.get());
